@@ -297,30 +297,46 @@ func c08Match(c *Ctx) {
 	}
 	// an error never comes with a positive answer
 	{
-		info := fs.Pkg.TypesInfo
 		bad, nret := "", 0
-		ast.Inspect(fs.Body(), func(nd ast.Node) bool {
-			if _, isLit := nd.(*ast.FuncLit); isLit {
-				return false
-			}
-			ret, ok := nd.(*ast.ReturnStmt)
-			if !ok || len(ret.Results) != 2 {
+		var checkRets func(f *FuncSrc, depth int)
+		checkRets = func(f *FuncSrc, depth int) {
+			info := f.Pkg.TypesInfo
+			ast.Inspect(f.Body(), func(nd ast.Node) bool {
+				if _, isLit := nd.(*ast.FuncLit); isLit {
+					return false
+				}
+				ret, ok := nd.(*ast.ReturnStmt)
+				if !ok {
+					return true
+				}
+				if len(ret.Results) == 1 && depth < 3 {
+					// return helper(pw): the helper's own returns are checked
+					if call, isCall := unparen(ret.Results[0]).(*ast.CallExpr); isCall {
+						if h := p.SrcOfFunc(calleeOf(&CallSite{Call: call, In: f})); h != nil && h.Decl != nil {
+							checkRets(h, depth+1)
+							return true
+						}
+					}
+				}
+				if len(ret.Results) != 2 {
+					return true
+				}
+				nret++
+				a, b := unparen(ret.Results[0]), unparen(ret.Results[1])
+				if isNilIdent(info, b) {
+					return true
+				}
+				if tv := info.Types[a]; tv.Value != nil && tv.Value.String() == "false" {
+					return true
+				}
+				if be, ok := a.(*ast.BinaryExpr); ok && be.Op == token.EQL && isNilIdent(info, be.Y) && types.ExprString(be.X) == types.ExprString(b) {
+					return true
+				}
+				bad = p.PosStr(ret.Pos())
 				return true
-			}
-			nret++
-			a, b := unparen(ret.Results[0]), unparen(ret.Results[1])
-			if isNilIdent(info, b) {
-				return true
-			}
-			if tv := info.Types[a]; tv.Value != nil && tv.Value.String() == "false" {
-				return true
-			}
-			if be, ok := a.(*ast.BinaryExpr); ok && be.Op == token.EQL && isNilIdent(info, be.Y) && types.ExprString(be.X) == types.ExprString(b) {
-				return true
-			}
-			bad = p.PosStr(ret.Pos())
-			return true
-		})
+			})
+		}
+		checkRets(fs, 0)
 		c.Check(bad == "" && nret > 5, "R8.2", "an error never comes with a match", fs.Pos(), fmt.Sprintf("%d returns: (x, nil), (false, err) or (err == nil, err)", nret), "Match can report a match together with an error (at "+bad+"): callers that only look at the boolean accept any password for a malformed record")
 	}
 	if cc := clauses["plain"]; cc != nil {
@@ -502,30 +518,33 @@ func c08Sibling(c *Ctx) {
 	// cases of Match
 	sinfo := mt.Pkg.TypesInfo
 	cases := map[string][]string{}
-	ast.Inspect(mt.Body(), func(n ast.Node) bool {
-		sw, ok := n.(*ast.SwitchStmt)
-		if !ok || sw.Tag == nil {
-			return true
-		}
-		tag := types.ExprString(sw.Tag)
-		field := ""
-		if strings.HasSuffix(tag, ".Type") {
-			field = "Type"
-		} else if strings.HasSuffix(tag, ".Hash") {
-			field = "Hash"
-		}
-		if field == "" {
-			return true
-		}
-		for _, s := range sw.Body.List {
-			for _, e := range s.(*ast.CaseClause).List {
-				if v, ok := constString(sinfo, e); ok {
-					cases[field] = appendUniqueStr(cases[field], v)
+	mtRoot := mt
+	for _, mt := range p.bodyClosure(mtRoot) {
+		ast.Inspect(mt.Body(), func(n ast.Node) bool {
+			sw, ok := n.(*ast.SwitchStmt)
+			if !ok || sw.Tag == nil {
+				return true
+			}
+			tag := types.ExprString(sw.Tag)
+			field := ""
+			if strings.HasSuffix(tag, ".Type") {
+				field = "Type"
+			} else if strings.HasSuffix(tag, ".Hash") {
+				field = "Hash"
+			}
+			if field == "" {
+				return true
+			}
+			for _, s := range sw.Body.List {
+				for _, e := range s.(*ast.CaseClause).List {
+					if v, ok := constString(sinfo, e); ok {
+						cases[field] = appendUniqueStr(cases[field], v)
+					}
 				}
 			}
-		}
-		return true
-	})
+			return true
+		})
+	}
 	for _, field := range []string{"Type", "Hash"} {
 		var missing []string
 		for _, w := range written[field] {
@@ -561,33 +580,46 @@ func c08Sibling(c *Ctx) {
 		})
 		return out
 	}
-	tc, sc := calls(mk), calls(mt)
+	tc, sc := calls(mk), map[string]bool{}
+	for _, h := range p.bodyClosure(mt) {
+		for k, v := range calls(h) {
+			if v {
+				sc[k] = true
+			}
+		}
+	}
 	okKDF := tc["golang.org/x/crypto/pbkdf2.Key"] && sc["golang.org/x/crypto/pbkdf2.Key"] &&
 		tc["ref:crypto/sha256.New"] && sc["ref:crypto/sha256.New"] &&
 		tc["golang.org/x/crypto/bcrypt.GenerateFromPassword"] && sc["golang.org/x/crypto/bcrypt.CompareHashAndPassword"]
 	c.Check(okKDF, "R8.4", "both sides use the same KDF entry points", mt.Pos(), "pbkdf2.Key with sha256.New on both sides; bcrypt.GenerateFromPassword / CompareHashAndPassword", "the tool and the server no longer derive keys with the same functions")
 	// Match takes iterations and key length from the record
 	okParams := false
-	ast.Inspect(mt.Body(), func(n ast.Node) bool {
-		call, ok := n.(*ast.CallExpr)
-		if !ok || len(call.Args) != 5 {
+	for _, mt := range p.bodyClosure(mtRoot) {
+		ast.Inspect(mt.Body(), func(n ast.Node) bool {
+			call, ok := n.(*ast.CallExpr)
+			if !ok || len(call.Args) != 5 {
+				return true
+			}
+			if f := calleeOf(&CallSite{Call: call, In: mt}); f == nil || f.Name() != "Key" || f.Pkg().Path() != "golang.org/x/crypto/pbkdf2" {
+				return true
+			}
+			a2, a3 := types.ExprString(call.Args[2]), types.ExprString(call.Args[3])
+			okParams = strings.HasSuffix(a2, ".Iterations") && strings.HasPrefix(a3, "len(")
 			return true
-		}
-		if f := calleeOf(&CallSite{Call: call, In: mt}); f == nil || f.Name() != "Key" || f.Pkg().Path() != "golang.org/x/crypto/pbkdf2" {
-			return true
-		}
-		a2, a3 := types.ExprString(call.Args[2]), types.ExprString(call.Args[3])
-		okParams = strings.HasSuffix(a2, ".Iterations") && strings.HasPrefix(a3, "len(")
-		return true
-	})
+		})
+	}
 	c.Check(okParams, "R8.4", "Match derives iteration count and key length from the stored record", mt.Pos(), "pbkdf2.Key(pw, salt, p.Iterations, len(key), h)", "iteration count or key length are not taken from the record: passwords hashed with other parameters never verify")
 
 	// both sides feed the whole password to the KDF: []byte(pw) of the parameter itself
 	wholePw := func(fs *FuncSrc) (int, string) {
 		info := fs.Pkg.TypesInfo
+		// the password is the first string parameter (receiver excluded)
 		var pwObj types.Object
 		for _, po := range fs.params(info) {
-			if po != nil && po.Name() == "pw" {
+			if po == nil || pwObj != nil {
+				continue
+			}
+			if b, ok := po.Type().(*types.Basic); ok && b.Kind() == types.String {
 				pwObj = po
 			}
 		}
@@ -636,12 +668,17 @@ func c08Sibling(c *Ctx) {
 		return n, bad
 	}
 	n1, b1 := wholePw(mk)
-	n2, b2 := wholePw(mt)
+	n2, b2 := 0, ""
+	for _, h := range p.bodyClosure(mt) {
+		nn, bb := wholePw(h)
+		n2 += nn
+		b2 += bb
+	}
 	c.Check(n1 >= 2 && n2 >= 3 && b1 == "" && b2 == "", "R8.4", "tool and server hash the whole password", mk.Pos(), fmt.Sprintf("%d + %d KDF/compare calls all take []byte(pw) of the password parameter itself", n1, n2), "the bytes hashed or compared are not the whole password given (at "+b1+b2+"): a stored hash verifies for other passwords than the one it was made from")
 
 	// a derived key of length 0 equals every other derived key of length 0
 	okLenSrv := false
-	{
+	for _, mt := range p.bodyClosure(mtRoot) {
 		ff := p.Facts().Analyze(mt)
 		ast.Inspect(mt.Body(), func(nd ast.Node) bool {
 			call, ok := nd.(*ast.CallExpr)
